@@ -135,9 +135,10 @@ def mj_qderiv(mjm, st, integrator):
   mw.apply_state_mj(m2, d2, st)
   mujoco.mj_forward(m2, d2)
   M = mw.dense_M(m2, d2.M)
+  qacc0 = np.array(d2.qacc)
   mujoco.mj_implicit(m2, d2)
   warn = sum(int(x.number) for x in d2.warning)
-  return dense_from_D(m2, d2.qDeriv), M, float(np.abs(d2.qacc).max()), warn
+  return dense_from_D(m2, d2.qDeriv), M, np.array(qacc0), warn
 
 
 def fd_qderiv(mjm, st):
@@ -270,7 +271,7 @@ def run_case(case):
   for w in range(nworld):
     st = states[w]
     ctx = f"world {w}"
-    Df_ref, M_ref, qacc_max, warn1 = mj_qderiv(mjm, st, mujoco.mjtIntegrator.mjINT_IMPLICITFAST)
+    Df_ref, M_ref, qacc_ref, warn1 = mj_qderiv(mjm, st, mujoco.mjtIntegrator.mjINT_IMPLICITFAST)
     Di_ref, _, _, warn2 = mj_qderiv(mjm, st, mujoco.mjtIntegrator.mjINT_IMPLICIT)
     if warn1 or warn2 or not np.all(np.isfinite(Di_ref)):
       rec.inconcl("MuJoCo raised a warning on this state")
@@ -285,6 +286,7 @@ def run_case(case):
       for i in muscle_ids:
         sup = np.abs(mom[i]) > 0
         mus |= np.outer(sup, sup)
+    qacc_max = float(np.abs(qacc_ref).max()) if qacc_ref.size else 0.0
     # MJWarp's D from its own M
     Hf = np.zeros((nv, nv))
     mujoco.mju_sym2dense(Hf, out_fast[w][: mjm.nC], mjm.M_rownnz, mjm.M_rowadr, mjm.M_colind)
@@ -297,7 +299,7 @@ def run_case(case):
     Df_sym = 0.5 * (Df_ref + Df_ref.T)
     mask_D = np.zeros((nv, nv), dtype=bool)
     if has_ellipsoid:
-      mask_D = tril & (np.abs(Df_sym - Df_ref) > line) & (np.abs(Df_got - Df_sym) <= line)
+      mask_D = tril & (np.abs(Df_sym - Df_ref) > line / cmp.VIOL_FACTOR) & (np.abs(Df_got - Df_sym) <= line)
     # (i) lower triangle in M-structure
     sel = tril & ((Df_ref != 0) | (Hf != 0) | (M_ref != 0))
     judge_split("qDeriv_implicitfast", Df_got, Df_ref, sel, A, 0.0, "qDeriv:implicitfast", [("_muscle", mus, SIG_B), ("_symmetrized", mask_D, SIG_D)], allow_abs, ctx)
@@ -319,7 +321,7 @@ def run_case(case):
       R[Di, Dj] = -qRNE[w][: len(Di)] / dt  # MJWarp's RNE contribution to D
       S_true = Di_ref - R  # smooth (non-RNE) part according to MuJoCo
       pred = S_true.T + R  # what MJWarp assembles: lower-triangle smooth part mirrored, plus the RNE term
-      mask_C = mask & ~tril & (np.abs(S_true - S_true.T) > line) & (np.abs(Di_got - pred) <= line)
+      mask_C = mask & ~tril & (np.abs(S_true - S_true.T) > line / cmp.VIOL_FACTOR) & (np.abs(Di_got - pred) <= line)
     grp = [("_muscle", mus, SIG_B), ("_mirrored", mask_C, SIG_C)]
     judge_split("qDeriv_implicit_lower", Di_got, Di_ref, mask & tril, A, 0.0, "qDeriv:implicit", grp, allow_abs, ctx)
     judge_split("qDeriv_implicit_upper", Di_got, Di_ref, mask & ~tril, A, 0.0, "qDeriv:implicit", grp, allow_abs, ctx)
@@ -353,8 +355,25 @@ def run_case(case):
       Aref = M_ref - dt * (Df_ref if name == "implicitfast" else Di_ref)
       if name == "implicitfast":
         Aref = np.tril(Aref) + np.tril(Aref, -1).T
+        ev = np.linalg.eigvalsh(Aref)
+        if ev[0] <= 1e-6 * ev[-1]:
+          rec.inconcl("implicitfast system matrix M - dt*D is not positive definite at this state (reference step is meaningless)")
+          rec.count("step_reference_matrix_not_pd")
+          continue
       cnd = float(np.linalg.cond(Aref))
-      judge_el(rec, "qvel_after_step_" + name, qvel_next[name][w], vref, max(1e-4, 3e-7 * cnd), snoise["qvel"], scale=max(1.0, float(np.abs(vref).max()), dt * qacc_max), sig=sig, ctx=ctx)
+      if cnd > 1e7:
+        rec.inconcl("implicit system matrix is ill-conditioned at this state")
+        rec.count("step_reference_matrix_illconditioned")
+        continue
+      vsc = max(1.0, float(np.abs(vref).max()), dt * qacc_max)
+      allow_v = max(1e-4, 3e-7 * cnd)
+      # MuJoCo 3.13's own step compared with the textbook update v + dt*(M - dt*D)^-1 M qacc built from MuJoCo's M, qDeriv, qacc
+      v0 = np.asarray(st["qvel"], dtype=np.float64)
+      classic = v0 + dt * np.linalg.solve(Aref, M_ref @ qacc_ref)
+      vline = cmp.VIOL_FACTOR * (allow_v * vsc + cmp.C_NOISE * snoise["qvel"])
+      if sig.startswith("step:") and np.any(np.abs(vref - classic) > vline) and np.all(np.abs(qvel_next[name][w] - classic) <= vline):
+        sig = "step:" + name + ":mujoco-step-differs-from-its-own-qDeriv-solve"
+      judge_el(rec, "qvel_after_step_" + name, qvel_next[name][w], vref, allow_v, snoise["qvel"], scale=vsc, sig=sig, ctx=ctx)
     nz = int((np.abs(Di_ref) > 1e-9).sum())
     if nz >= 3:
       nontrivial = True
